@@ -111,9 +111,9 @@ mod axv_types {
     pair_laws!(laws_bigint_uint, DataType::BigInt(Int64(kani::any())), DataType::UInt(UInt32(kani::any())));
     //@ob [C19:laws.bigint_biguint] level=proved harness=laws_bigint_biguint text="for every bigint value a and biguint value b (non-NaN): == symmetric and reflexive, partial_cmp total, antisymmetric and consistent with ==, and a == b implies equal hasher input"
     pair_laws!(laws_bigint_biguint, DataType::BigInt(Int64(kani::any())), DataType::BigUInt(UInt64(kani::any())));
-    //@ob [C19:laws.bigint_float] level=proved harness=laws_bigint_float text="for every bigint value a and float value b (non-NaN): == symmetric and reflexive, partial_cmp total, antisymmetric and consistent with ==, and a == b implies equal hasher input"
+    //@ob [C19:laws.bigint_float] level=proved tier=thorough harness=laws_bigint_float text="for every bigint value a and float value b (non-NaN): == symmetric and reflexive, partial_cmp total, antisymmetric and consistent with ==, and a == b implies equal hasher input"
     pair_laws!(laws_bigint_float, DataType::BigInt(Int64(kani::any())), DataType::Float(Float32(any_f32())));
-    //@ob [C19:laws.bigint_double] level=proved tier=quick harness=laws_bigint_double text="for every bigint value a and double value b (non-NaN): == symmetric and reflexive, partial_cmp total, antisymmetric and consistent with ==, and a == b implies equal hasher input"
+    //@ob [C19:laws.bigint_double] level=proved tier=thorough harness=laws_bigint_double text="for every bigint value a and double value b (non-NaN): == symmetric and reflexive, partial_cmp total, antisymmetric and consistent with ==, and a == b implies equal hasher input"
     pair_laws!(laws_bigint_double, DataType::BigInt(Int64(kani::any())), DataType::Double(Float64(any_f64())));
     //@ob [C19:laws.uint_uint] level=proved harness=laws_uint_uint text="for every uint value a and uint value b (non-NaN): == symmetric and reflexive, partial_cmp total, antisymmetric and consistent with ==, and a == b implies equal hasher input"
     pair_laws!(laws_uint_uint, DataType::UInt(UInt32(kani::any())), DataType::UInt(UInt32(kani::any())));
@@ -125,9 +125,9 @@ mod axv_types {
     pair_laws!(laws_uint_double, DataType::UInt(UInt32(kani::any())), DataType::Double(Float64(any_f64())));
     //@ob [C19:laws.biguint_biguint] level=proved harness=laws_biguint_biguint text="for every biguint value a and biguint value b (non-NaN): == symmetric and reflexive, partial_cmp total, antisymmetric and consistent with ==, and a == b implies equal hasher input"
     pair_laws!(laws_biguint_biguint, DataType::BigUInt(UInt64(kani::any())), DataType::BigUInt(UInt64(kani::any())));
-    //@ob [C19:laws.biguint_float] level=proved tier=quick harness=laws_biguint_float text="for every biguint value a and float value b (non-NaN): == symmetric and reflexive, partial_cmp total, antisymmetric and consistent with ==, and a == b implies equal hasher input"
+    //@ob [C19:laws.biguint_float] level=proved tier=thorough harness=laws_biguint_float text="for every biguint value a and float value b (non-NaN): == symmetric and reflexive, partial_cmp total, antisymmetric and consistent with ==, and a == b implies equal hasher input"
     pair_laws!(laws_biguint_float, DataType::BigUInt(UInt64(kani::any())), DataType::Float(Float32(any_f32())));
-    //@ob [C19:laws.biguint_double] level=proved harness=laws_biguint_double text="for every biguint value a and double value b (non-NaN): == symmetric and reflexive, partial_cmp total, antisymmetric and consistent with ==, and a == b implies equal hasher input"
+    //@ob [C19:laws.biguint_double] level=proved tier=thorough harness=laws_biguint_double text="for every biguint value a and double value b (non-NaN): == symmetric and reflexive, partial_cmp total, antisymmetric and consistent with ==, and a == b implies equal hasher input"
     pair_laws!(laws_biguint_double, DataType::BigUInt(UInt64(kani::any())), DataType::Double(Float64(any_f64())));
     //@ob [C19:laws.float_float] level=proved harness=laws_float_float text="for every float value a and float value b (non-NaN): == symmetric and reflexive, partial_cmp total, antisymmetric and consistent with ==, and a == b implies equal hasher input"
     pair_laws!(laws_float_float, DataType::Float(Float32(any_f32())), DataType::Float(Float32(any_f32())));
